@@ -657,6 +657,38 @@ void verif_wrap_fossil_on_gvt(simtime_t g)
 	RKC->fossil_on_gvt(g);
 }
 
+/* C06: identities (sender id, sequence number) of the remote events whose cancellation a thread has extracted: such an event must
+ * never be declared committed.  The identity is unique for the whole run (the sequence numbers do not wrap in runs of this size). */
+#define RC_SZ (1u << 16)
+static uint64_t rc_keys[RC_SZ];
+static unsigned rc_n;
+/* the sequence numbers are per (sender thread, destination node): the identity only means something on the receiving rank */
+static uint64_t rc_key_of(uint32_t raw_flags, uint32_t m_seq)
+{
+	return mix64(((uint64_t)(raw_flags & ~3u) << 32) | m_seq, 0xAC00u + (uint64_t)vt_self->rank) | 1u;
+}
+static void rc_add(uint64_t k)
+{
+	if(!k || rc_n > RC_SZ / 2)
+		return; /* a full table only weakens the check */
+	unsigned i = (unsigned)(mix64(k, 0x5c) & (RC_SZ - 1));
+	while(rc_keys[i] && rc_keys[i] != k)
+		i = (i + 1) & (RC_SZ - 1);
+	if(!rc_keys[i]) {
+		rc_keys[i] = k;
+		rc_n++;
+	}
+}
+static bool rc_has(uint64_t k)
+{
+	if(!k)
+		return false;
+	unsigned i = (unsigned)(mix64(k, 0x5c) & (RC_SZ - 1));
+	while(rc_keys[i] && rc_keys[i] != k)
+		i = (i + 1) & (RC_SZ - 1);
+	return rc_keys[i] == k;
+}
+
 void verif_wrap_fossil_lp_collect(struct lp_ctx *lp)
 {
 	int rank = vt_self->rank;
@@ -674,7 +706,7 @@ void verif_wrap_fossil_lp_collect(struct lp_ctx *lp)
 			past[i] = is_msg_past(m);
 			if(past[i]) {
 				snap[i] = (struct ev_rec){m->dest_t, m->m_type, m->pl_size, payload_hash(m->pl, m->pl_size)};
-				cancelled[i] = (m->raw_flags & MSG_FLAG_ANTI) != 0;
+				cancelled[i] = (m->raw_flags & MSG_FLAG_ANTI) != 0 || (m->raw_flags > 3u && rc_has(rc_key_of(m->raw_flags, m->m_seq)));
 			}
 		}
 	}
@@ -758,7 +790,7 @@ void verif_wrap_process_lp_fini(struct lp_ctx *lp)
 			continue;
 		if(!(m->dest_t < g))
 			break;
-		if(m->raw_flags & MSG_FLAG_ANTI)
+		if((m->raw_flags & MSG_FLAG_ANTI) || (m->raw_flags > 3u && rc_has(rc_key_of(m->raw_flags, m->m_seq))))
 			sim_violation_soft("C06", "cancelled-committed",
 			    "LP %llu: an event (t=%g type=%u) whose sender has cancelled it is still a valid history entry below the last GVT=%g at shutdown",
 			    (unsigned long long)me, m->dest_t, m->m_type, g);
@@ -921,6 +953,7 @@ static void ea_on_extract(struct lp_msg *m)
 	if((m->raw_flags & MSG_FLAG_ANTI) && m->raw_flags > (MSG_FLAG_ANTI | MSG_FLAG_PROCESSED) && d < (lp_id_t)P.n_lps) {
 		struct buf_ent *e = buf_find(m, false);
 		if(e && e->live) {
+			rc_add(rc_key_of(m->raw_flags, m->m_seq));
 			e->ea_state = 1;
 			e->ea_lp = (unsigned)d;
 			ea_unsettled[me] = m;
